@@ -18,7 +18,8 @@ use copia_simworld::{eprintln, println};
 
 use super::archive::{archive_path, root_pair_hash, Archive};
 use super::meta::discover_local_fingerprints;
-use super::reconcile::{reconcile, Action, ConflictKind, FpMap};
+use super::reconcile::{reconcile, Action, ConflictKind, Fingerprint, FpMap};
+use std::collections::BTreeSet;
 use std::path::{Path, PathBuf};
 
 pub struct BidirOptions {
@@ -109,7 +110,13 @@ pub fn run_bisync(
     // file into a "delete". Both sides deleted it: there is nothing left to remember.
     common.retain(|p, _| a.contains_key(p) || b.contains_key(p));
     let mut conflict_paths: Vec<PathBuf> = Vec::new();
+    // Conflict-copy names written by a conflict in THIS run. The plan was computed before
+    // they were written, so an action planned for such a name is stale and is skipped.
+    let mut written: BTreeSet<PathBuf> = BTreeSet::new();
     for (path, act) in &plan {
+        if written.contains(path) {
+            continue;
+        }
         apply(
             root_a,
             root_b,
@@ -120,6 +127,7 @@ pub fn run_bisync(
             &host,
             &mut common,
             &mut conflict_paths,
+            &mut written,
         )?;
     }
 
@@ -151,6 +159,47 @@ pub fn run_bisync(
     }
 }
 
+/// Put the content of `src` (fingerprint `fp`) at the relative conflict-copy `name` on
+/// BOTH sides and record it. The name can already exist - an earlier conflict lost the
+/// same content, and the user may since have edited or deleted that copy on one side -
+/// so a different version living there is first preserved, recursively, under its own
+/// conflict name. Nothing is ever overwritten without being kept.
+#[allow(clippy::too_many_arguments)]
+fn place_on_both(
+    src: &Path,
+    name: &Path,
+    fp: Fingerprint,
+    side_a: (&Path, &FpMap),
+    side_b: (&Path, &FpMap),
+    host: &str,
+    common: &mut FpMap,
+    written: &mut BTreeSet<PathBuf>,
+) -> std::io::Result<()> {
+    for (root, before) in [side_a, side_b] {
+        if let Some(old) = before.get(name) {
+            if old.blake3 != fp.blake3 && !written.contains(name) {
+                let mut keep = name.as_os_str().to_owned();
+                keep.push(format!(".conflict-{host}-{}", short_hex(&old.blake3)));
+                place_on_both(
+                    &root.join(name),
+                    Path::new(&keep),
+                    *old,
+                    side_a,
+                    side_b,
+                    host,
+                    common,
+                    written,
+                )?;
+            }
+        }
+    }
+    copy_atomic(src, &side_a.0.join(name))?;
+    copy_atomic(src, &side_b.0.join(name))?;
+    common.insert(name.to_path_buf(), fp);
+    written.insert(name.to_path_buf());
+    Ok(())
+}
+
 #[allow(clippy::too_many_arguments)]
 fn apply(
     root_a: &Path,
@@ -162,6 +211,7 @@ fn apply(
     host: &str,
     common: &mut FpMap,
     conflicts: &mut Vec<PathBuf>,
+    written: &mut BTreeSet<PathBuf>,
 ) -> std::io::Result<()> {
     let pa = root_a.join(rel);
     let pb = root_b.join(rel);
@@ -228,13 +278,20 @@ fn apply(
             let win_full = win_root.join(rel); // winner content
             let lose_full = lose_root.join(rel); // loser content (about to be overwritten)
                                                  // 1. Preserve the loser as a conflict-copy on BOTH sides FIRST.
-            copy_atomic(&lose_full, &lose_root.join(&loser_name))?;
-            copy_atomic(&lose_full, &win_root.join(&loser_name))?;
+            place_on_both(
+                &lose_full,
+                &loser_name,
+                *lose_fp,
+                (root_a, a),
+                (root_b, b),
+                host,
+                common,
+                written,
+            )?;
             // 2. Put the winner's content on both real paths (winner side already has it).
             copy_atomic(&win_full, &lose_full)?;
             // Both replicas now hold {rel = winner, loser_name = loser} — identical.
             common.insert(rel.to_path_buf(), *win_fp);
-            common.insert(loser_name, *lose_fp);
             conflicts.push(rel.to_path_buf());
         }
     }
